@@ -69,7 +69,7 @@ class Check(CheckBase):
         quick = self.tier == 'quick'
         cases = []
         kinds = ['s3c', 'b2', 's3', 'b2', 's3c', 'b2'] + [f'local:{s}' for s in SPELLINGS]
-        n = 156 if quick else 12000
+        n = 156 if quick else 60000
         for i in range(n):
             r = random.Random(f'C13/{self.seed}/{i}')
             cases.append({'kind': kinds[i % len(kinds)], 'seed': r.randrange(1 << 30), 'nops': r.randint(40, 90) if quick else r.randint(40, 150),
